@@ -100,3 +100,42 @@ Proof. unfold apply_comp. destruct (base_values t (c_prefix c) (c_bases c)) as [
   - intros n st Hin. apply in_map_iff. exists (n, t_dummy st, brefs_value vals (s_base (t_sup st))). split; [reflexivity|].
     apply in_map_iff. exists (n, st). auto.
   - intros n v Hin. apply in_map_iff. exists (n, v). split; [reflexivity|]. apply in_or_app. left. exact Hin. Qed.
+
+(* ---- a sufficient condition for finishing to succeed (component level) ---- *)
+Lemma base_value_ok t full b v w : b_len b <> 0 -> t full = Some v -> List.length v = b_len b ->
+  wc_codes v = Some w -> t (full +++ "*") = Some w -> base_value t full b = OK v.
+Proof. intros Z T L Wc T2. unfold base_value. apply Nat.eqb_neq in Z. rewrite Z, T.
+  assert (E : Nat.eqb (List.length v) (b_len b) = true) by (apply Nat.eqb_eq; exact L). rewrite E. simpl. rewrite Wc, T2.
+  assert (Q : chars_eqb w w = true) by (apply chars_eqb_eq; reflexivity). rewrite Q. reflexivity. Qed.
+
+Lemma base_values_complete t prefix : forall bs,
+  (forall n b, In (n, b) bs -> b_len b <> 0 -> exists v w, t (prefix +++ n) = Some v /\ List.length v = b_len b /\
+       wc_codes v = Some w /\ t ((prefix +++ n) +++ "*") = Some w) ->
+  exists vals, base_values t prefix bs = OK vals.
+Proof. induction bs as [|[n b] bs IH]; intros H; simpl; [eauto|].
+  destruct (IH (fun n' b' Hin => H n' b' (or_intror Hin))) as [rest R]. rewrite R.
+  destruct (Nat.eq_dec (b_len b) 0) as [Z|Z].
+  - unfold base_value. apply Nat.eqb_eq in Z. rewrite Z. simpl. eauto.
+  - destruct (H n b (or_introl eq_refl) Z) as [v [w [A [B [C D]]]]]. rewrite (base_value_ok t _ b v w Z A B C D). simpl. eauto. Qed.
+
+(* if the design file holds, for every non-empty base sequence, a record of the declared length together with its
+   reverse complement under the starred name, and for every structure the '+'-join of its strands as finish itself
+   assembles them, then finishing succeeds *)
+Theorem apply_comp_complete t c :
+  (forall n b, In (n, b) (c_bases c) -> b_len b <> 0 -> exists v w, t (c_prefix c +++ n) = Some v /\ List.length v = b_len b /\
+       wc_codes v = Some w /\ t ((c_prefix c +++ n) +++ "*") = Some w) ->
+  (forall vals, base_values t (c_prefix c) (c_bases c) = OK vals ->
+     forall n u, In (n, u) (c_structs c) ->
+       t (c_prefix c +++ n) = Some (join_plus_chars (map (fun sn =>
+           match afind (map (fun x => (fst (fst x), snd x))
+                            (map (fun '(n0, st) => (n0, t_dummy st, brefs_value vals (s_base (t_sup st)))) (c_strands c))) sn with
+           | Some x => x | None => [] end) (u_strands u)))) ->
+  exists f, apply_comp t c = OK f.
+Proof. intros HB HS. unfold apply_comp. destruct (base_values_complete t (c_prefix c) (c_bases c) HB) as [vals V]. rewrite V. cbn [bind].
+  specialize (HS vals V).
+  match goal with |- context [bind (?G (c_structs c)) _] => assert (X : exists r, G (c_structs c) = OK r) end.
+  { revert HS. generalize (c_structs c) as us. induction us as [|[n u] us IH]; intros HS; [eauto|].
+    rewrite (HS n u (or_introl eq_refl)).
+    match goal with |- context [chars_eqb ?a ?a] => assert (Q : chars_eqb a a = true) by (apply chars_eqb_eq; reflexivity); rewrite Q end.
+    destruct (IH (fun n' u' H' => HS n' u' (or_intror H'))) as [r R]. rewrite R. simpl. eauto. }
+  destruct X as [r R]. rewrite R. simpl. eauto. Qed.
